@@ -275,11 +275,26 @@ def gen_kwargs(draw, name: str, r: int, c: int, defaults_only: bool = False, sol
     return kw
 
 
+def _spelled(draw, name: str, kw: dict) -> dict:
+    """the same arguments as a caller might spell them: keys in another order, defaults written out as None"""
+    kw = dict(kw)
+    if name in ("gen_dfs", "gen_prim", "gen_dfs_percolation") and draw(st.integers(0, 3)) == 0:
+        for k in ("accessible_cells", "max_tree_depth", "start_coord"):
+            if k not in kw and draw(st.booleans()):
+                kw[k] = None
+    elif name == "gen_percolation" and "start_coord" not in kw and draw(st.integers(0, 3)) == 0:
+        kw["start_coord"] = None
+    keys = draw(st.permutations(sorted(kw)))
+    return {k: kw[k] for k in keys}
+
+
 @st.composite
 def generator_call(draw, lo=1, hi=12, square=False, names=None, defaults_only=False):
     name = draw(st.sampled_from(names or GENERATORS))
     r, c = draw(shapes(lo, hi, square))
     kw = draw(gen_kwargs(name, r, c, defaults_only))
+    if not defaults_only:
+        kw = _spelled(draw, name, kw)
     out = {
         "gen": name,
         "r": r,
@@ -373,7 +388,7 @@ def dataset_spec(draw, n_lo=2, n_hi=6, mazes_lo=0, mazes_hi=8, ctors=None, with_
         "grid_n": n,
         "n_mazes": draw(st.integers(mazes_lo, mazes_hi)),
         "ctor": ctor,
-        "kwargs": draw(gen_kwargs(ctor, n, n, solvable=satisfiable_bias)) if draw(st.booleans()) else {},
+        "kwargs": _spelled(draw, ctor, draw(gen_kwargs(ctor, n, n, solvable=satisfiable_bias))) if draw(st.booleans()) else {},
         "seed": draw(st.sampled_from([42, 0, 1, 7, 123456, 2**31 - 1]) | st.integers(0, 2**31 - 1)),
     }
     if with_endpoint and draw(st.booleans()):
